@@ -26,6 +26,7 @@ def main() -> int:
         with open(args.replay) as fh:
             rec = json.load(fh)
         return mod.replay(rec)
+    os.environ["VERIF_TIER"] = args.tier
     t0 = time.time()
     try:
         report = mod.run(args.tier, seed, only=args.only)
